@@ -1277,6 +1277,8 @@ class Interp(object):
                 return ClassRef(cls)
             if name.startswith('__') and name.endswith('__'):
                 raise Undecidable('special attribute %s of an object' % name)      # every object has these: a limit of the model
+            if getattr(cls, 'opaque_bases', False):
+                raise Undecidable('attribute %s of a %s: the class has a base that is computed at run time' % (name, cls.name))
             raise PyRaise('AttributeError', '%s.%s' % (cls.name, name))
         if isinstance(o, Opaque):
             if name in o.attrs:
